@@ -131,6 +131,29 @@ CASES = [
     dict(id="benign-bulkwalk-capped-size", kind="benign", props=["C02", "C16"],
          edits=[(RAW, "            fetcher=self._bulkwalk_fetcher(bulk_size),", "            fetcher=self._bulkwalk_fetcher(min(bulk_size, 50)),")],
          note="any repetition count >= 1 gives the same walk"),
+    dict(id="benign-from-raw-locals", kind="benign", props=["C15", "C19"],
+         edits=[("puresnmp/varbind.py", "        return PyVarBind(\n            raw_varbind.oid.pythonize(), raw_varbind.value.pythonize()\n        )",
+                 "        oid, value = raw_varbind\n        text = oid.pythonize()\n        return PyVarBind(text, value.pythonize())")]),
+    dict(id="benign-trapinfo-values-comprehension", kind="benign", props=["C19"],
+         edits=[(PY, "        output = {}\n        for varbind in self.raw_trap.value.varbinds[2:]:\n            pyvarbind = PyVarBind.from_raw(varbind)\n            output[pyvarbind.oid] = pyvarbind.value\n        return output",
+                 "        payload = [PyVarBind.from_raw(vb) for vb in self.raw_trap.value.varbinds[2:]]\n        return {item.oid: item.value for item in payload}")]),
+    dict(id="benign-usm-params-unpack", kind="benign", props=["C06", "C09", "C10", "C12", "C20"],
+         edits=[(USM, "        return USMSecurityParameters(\n            authoritative_engine_id=seq[0].pythonize(),\n            authoritative_engine_boots=seq[1].pythonize(),\n            authoritative_engine_time=seq[2].pythonize(),\n            user_name=seq[3].pythonize(),\n            auth_params=seq[4].pythonize(),\n            priv_params=seq[5].pythonize(),\n        )",
+                 "        engine_id, boots, etime, user, auth_p, priv_p = [item.pythonize() for item in seq]\n        return USMSecurityParameters(engine_id, boots, etime, user, auth_p, priv_p)")]),
+    dict(id="benign-incoming-early-user-check-names", kind="benign", props=["C09", "C06", "C10", "C11"],
+         edits=[(USM, "        security_name = security_params.user_name\n        if security_name != credentials.username.encode(\"ascii\"):",
+                 "        expected_user = credentials.username.encode(\"ascii\")\n        security_name = security_params.user_name\n        if not security_name == expected_user:")]),
+    dict(id="benign-trap-decode-locals", kind="benign", props=["C19", "C20"],
+         edits=[(RAW, "        mproc = mpm.create(version.value, handler, lcd)\n        trap = cast(Trap, mproc.decode(packet.data, credentials))\n        trap.source = packet.info\n        asyncio.ensure_future(callback(trap))",
+                 "        processor = mpm.create(version.value, handler, lcd)\n        decoded = processor.decode(packet.data, credentials)\n        trap = cast(Trap, decoded)\n        trap.source = packet.info\n        asyncio.ensure_future(callback(trap))")]),
+    dict(id="benign-send-udp-for-loop", kind="benign", props=["C13", "C20"], informational=True,
+         note="a for/else rewrite of the retry loop: the loop contract is attached to the `while`; expected UNDECIDED, never VIOLATION",
+         edits=[(TRANSPORT, "    while retries > 0:\n", "    for attempt in range(retries, 0, -1):\n"),
+                (TRANSPORT, "            if retries == 1:\n                raise\n            retries -= 1\n            LOG.debug(\"Resending UDP packet. %d retries left\", retries)",
+                 "            if attempt == 1:\n                raise\n            LOG.debug(\"Resending UDP packet. %d retries left\", attempt - 1)")]),
+    dict(id="benign-debug-log-pure-args", kind="benign", props=["C05", "C09", "C10", "C12"],
+         edits=[(V3, "        message = Message.decode(whole_msg)\n", "        message = Message.decode(whole_msg)\n        LOG_V3.debug(\"received %d octets, message id %s\", len(whole_msg), message.header.message_id)\n"),
+                (V3, "IDENTIFIER = 3\n", "IDENTIFIER = 3\nimport logging\nLOG_V3 = logging.getLogger(__name__)\n")]),
     # ------------------------------------------------------------------ breaking (Appendix B; not already among seeded/)
     dict(id="break-group-stride", kind="breaking", props=["C01", "C02"],
          edits=[(UTIL, "varbinds[i::n]", "varbinds[i :: n + 1]")]),
